@@ -623,10 +623,18 @@ func (s *synth) fieldName(used map[string]bool) string {
 func (s *synth) genStruct(n *mNode, idx int) {
 	rng := s.rng
 	a := &alloc{rng: rng.Fork(), random: rng.Chance(1, 3), maxW: 12}
-	if rng.Chance(1, 25) {
+	huge := s.opts.Systematic && idx == len(dataKinds)+1
+	if huge || rng.Chance(1, 25) {
 		// a big struct: fields at large offsets
 		a.maxW = 80
 		pad := 40 + rng.Intn(300)
+		if huge {
+			// data sections of 64 KiB and more: 8*dataWordCount does not fit 16 bits
+			// (seeded defect C15-6: ObjectSize computed in uint16)
+			pads := []int{8191, 8192, 8193, 12000, 16384, 40000, 65500}
+			pad = pads[rng.Intn(len(pads))]
+			a.maxW = pad + 30
+		}
 		for i := 0; i < pad*64; i++ {
 			a.used = append(a.used, true)
 		}
